@@ -14,17 +14,22 @@ NMAX_EXH = 8
 EXH_KINDS = ["ode", "statio1", "statio2", "nonstatio", "obs", "param", "obsmulti"]
 _PAIRS = [(n, b) for n in range(1, NMAX_EXH + 1) for b in range(1, n + 1)]
 N_EXH = len(_PAIRS) * len(EXH_KINDS)
+# thorough tier only: a second exhaustive block, NMAX_EXH < n <= NMAX_EXH_THOROUGH (run indices N_EXH .. N_EXH + N_EXH2 - 1);
+# the quick tier's run indices are unchanged by it
+NMAX_EXH_THOROUGH = 12
+_PAIRS2 = [(n, b) for n in range(NMAX_EXH + 1, NMAX_EXH_THOROUGH + 1) for b in range(1, n + 1)]
+N_EXH2 = len(_PAIRS2) * len(EXH_KINDS)
 
-TIERS = {"quick": N_EXH + 300, "thorough": N_EXH + 12000}
+TIERS = {"quick": N_EXH + 300, "thorough": N_EXH + N_EXH2 + 12000}
 
 RULE = (
-    "runs 0..%d enumerate exhaustively every (n, b) with 1<=b<=n<=%d for every generator kind "
+    "runs 0..%d enumerate exhaustively every (n, b) with 1<=b<=n<=%d (thorough tier: a further block of runs up to n<=%d) for every generator kind "
     "(ODE times, 1-D interior, 2-D interior+border with n rows per facet, space-time, observations, parameters, "
     "multi-network observations) over >= 3 epochs; later runs draw 1-2 generators (n <= 24 quick / 60 thorough, "
     "about half with b | n) and a schedule of 10-40 (quick) / 20-160 (thorough) get_batch ops in modes "
     "eager / jit / lax.scan(k) / pytree round trip. A run is non-trivial when some sub-stream crossed at least one "
     "epoch boundary (a reshuffle after a complete epoch); distinct = distinct (kind, n, b, modes used) tuples."
-    % (N_EXH - 1, NMAX_EXH)
+    % (N_EXH - 1, NMAX_EXH, NMAX_EXH_THOROUGH)
 )
 STATE_MEASURE = "(generator kind, sub-stream, b divides n, phase in {fresh, mid-epoch, last-exact, last-clamped, just-reshuffled}, epoch index capped at 3, execution mode)"
 REAL = ["jinns.data.* generators (constructors, get_batch, _reset_or_increment, dynamic_slice)", "jax.jit / lax.scan execution of get_batch"]
@@ -41,10 +46,10 @@ def float_mode(r):
     return "x32" if r % 4 == 3 else "x64"
 
 
-def _exh_program(r):
-    kind = EXH_KINDS[r // len(_PAIRS)]
-    n, b = _PAIRS[r % len(_PAIRS)]
-    key = 1000 + r
+def _exh_program(r, pairs=_PAIRS, key0=1000):
+    kind = EXH_KINDS[r // len(pairs)]
+    n, b = pairs[r % len(pairs)]
+    key = key0 + r
     calls = 3 * -(-n // b) + 4
     mode = "jit" if r % 2 == 0 else "eager"
     if kind == "ode":
@@ -73,6 +78,10 @@ def _exh_program(r):
 def generate(rng, tier, r):
     if r < N_EXH:
         return _exh_program(r)
+    if tier == "thorough" and r < N_EXH + N_EXH2:
+        p = _exh_program(r - N_EXH, _PAIRS2, 5000)
+        p["float"] = float_mode(r)
+        return p
     from sim import gensim as gg
 
     thorough = tier == "thorough"
@@ -124,12 +133,13 @@ def shrink(program):
 
 
 def evidence_extra(ok, tier):
-    exh = [r for r in ok if r["r"] < N_EXH]
+    nmax, expected = (NMAX_EXH_THOROUGH, N_EXH + N_EXH2) if tier == "thorough" else (NMAX_EXH, N_EXH)
+    exh = [r for r in ok if r["r"] < expected]
     return {
         "exhaustive_subspace": {
-            "description": "every (n,b), 1<=b<=n<=%d, x %d generator kinds, >=3 epochs each" % (NMAX_EXH, len(EXH_KINDS)),
+            "description": "every (n,b), 1<=b<=n<=%d, x %d generator kinds, >=3 epochs each" % (nmax, len(EXH_KINDS)),
             "programs": len(exh),
-            "expected": N_EXH,
-            "exhaustive": len(exh) == N_EXH,
+            "expected": expected,
+            "exhaustive": len(exh) == expected,
         }
     }
